@@ -244,6 +244,22 @@ PROPS = {
             enum("word-table", "TestC17WordTable"),
         ],
     ),
+    "C19": dict(
+        technique="PBT over constructed doubles with exact contract predicates (math/big where float arithmetic could round) + exhaustive sweep of half-way and integer-adjacent values",
+        level_text="For doubles |x| < 2^52 built from integers, k+0.5, neighbours of integers (Nextafter), signed zeros, subnormals, k/10^d, random "
+                   "sign/exponent/mantissa and known awkward decimals, supplied through the storer and captured exactly by a host function: the stated inequalities for "
+                   "floor, ceil, inc, dec, integer, decimal (integer+decimal = x exactly), round (|r-x| <= 0.5 exactly), round_places (|r-x| <= 0.5*10^-n + 4 ulp(x), "
+                   "n in 0..8), number(string(x)) == x, bool(string(b)) == b, identity of string/number/bool on their own type, and errors for strings that are neither "
+                   "numbers nor booleans. Sweep: every k, k+0.5, k+-ulp for |k| <= 2000 (thorough 100000) and every power of two with neighbours. Search, not proof.",
+        level_note="round_places is given a stated tolerance of 4 ulp(x) on top of half a unit (multiplying by 10^n rounds; measured worst case 1 ulp). Non-convertible strings "
+                   "avoid spellings strconv accepts (inf, nan, hex, exponents, 1/t/T/0/f/F).",
+        rule="x from ten constructions x n in 0..8 x b x a non-convertible string; non-trivial = x is not an integer; distinct = distinct (x bits, n, b, s).",
+        assumptions=["-0 and +0 are equal for number(string(x)) = x (the statement says '=')"],
+        subs=[
+            rapid("builtins", "TestC19Builtins", 20000, 200000),
+            enum("sweep", "TestC19Sweep", env=dict(quick=dict(VERIF_C19_SWEEP=2000), thorough=dict(VERIF_C19_SWEEP=100000))),
+        ],
+    ),
     "C20": dict(
         technique="model-based stateful PBT (slice model) + exhaustive small-scope enumeration; invariant over generated token streams; native fuzzing",
         level_text="Generated and exhaustively enumerated operation histories against a slice model (every enqueue/dequeue word up to "
